@@ -132,6 +132,7 @@ func c16(c *Ctx) {
 
 	// ---- export ----
 	c.captureFamily("litefs.(*DB).Export", true)
+	c.exportSelfCheck("export-selfcheck")
 	c.walCacheFamily("wal-cache")
 	ex := "litefs.(*DB).Export"
 	wr := p.Calls("io.Writer.Write")
